@@ -34,6 +34,10 @@ def mk_input(form, k, atom, numtype, bo, idx):
         t = ('typed', 'int64', src)
         r = t if numtype == 'int64' else ('cast', numtype, t)
         return np.SeqInput('int', k, atom, src), Seq.of(r, k)
+    if form == 'zerodim':
+        # a zero-dimensional ndarray is a number: appended to a 1-D array as one element
+        r = src if numtype == 'float32' else ('cast', numtype, src)
+        return np.ndarray(dt_of('float32', 'little'), (), Seq.of(src, 1)), Seq.of(r, 1)
     if form == 'scalar':
         t = ('typed', 'float64', src)
         r = t if numtype == 'float64' else ('cast', numtype, t)
@@ -344,6 +348,8 @@ def _mk_real(np_, form, k, atom, numtype, bo, base):
         return rp.values(np_, k, atom, 'int64', 'little', base).tolist()
     if form == 'scalar':
         return float(base)
+    if form == 'zerodim':
+        return np_.array(float(base), dtype='float32')
 
 
 def replay_generic(cex, d):
@@ -549,7 +555,9 @@ def obligations(tier):
                   splits=[dict(numtype=nt, bo=bo, atom=at, form=f) for (nt, bo, at) in cfgs[:3]
                           for f in ('same', 'otherbo', 'cast', 'list')]
                   + [dict(numtype='float64', bo='little', atom=(), form='scalar'),
-                     dict(numtype='int8', bo='little', atom=(), form='scalar')],
+                     dict(numtype='int8', bo='little', atom=(), form='scalar'),
+                     dict(numtype='float32', bo='big', atom=(), form='zerodim'),
+                     dict(numtype='int16', bo='little', atom=(), form='zerodim')],
                   timeout=T, replay='replay_generic', sym='n, k, probe : int',
                   bounds='0<=n,k<=2^62; one appended object of each input form'))
     obs.append(Ob('S-truncate', 'h_truncate',
